@@ -1,4 +1,6 @@
 import Frp.Props.C10
+import Frp.Props.C10Xport
+import Frp.Props.C10Drop
 open Frp.C10
 #print axioms inv_reachable
 #print axioms register_conflict_restores
@@ -23,3 +25,24 @@ open Frp.C10
 #print axioms Conc.retry_succeeds
 #print axioms Conc.quiescent_clean
 #print axioms Conc.accounted_sound
+#print axioms Xport.http_workconn_closed_once
+#print axioms Xport.udp_workconn_closed
+#print axioms Xport.reached_spec
+#print axioms Xport.reached_pos
+#print axioms Xport.var_capture_never_closes
+#print axioms Xport.var_capture_harmless_without_limit
+#print axioms Xport.reached_current
+#print axioms Xport.winv_reachable
+#print axioms Xport.released_closed
+#print axioms Xport.idle_all_closed
+#print axioms Xport.session_end_closes
+#print axioms Drop.dinv_reachable
+#print axioms Drop.drop_idle_spec
+#print axioms Drop.drop_pending_unchanged
+#print axioms Drop.gone_clean
+#print axioms Drop.gone_within_two
+#print axioms Drop.quiescent_empty
+#print axioms Xport.late_workconn_witness
+#print axioms Xport.late_workconn_full_fails
+#print axioms Xport.late_workconn_bound
+#print axioms Xport.repaired_no_late_workconn
